@@ -16,6 +16,16 @@ from .man import Man
 from .cov import Cov
 
 
+def _rebuild(cls, coord):
+    """Used when unpickling a StateVector (or subclass) instance
+
+    Allocate the array the same way the constructor does, in order to get a fully
+    functional object (a ndarray restored by the default mechanism has no ``base``
+    to write the form and frame conversions into).
+    """
+    return np.ndarray.__new__(cls, (6,), buffer=np.array(coord, dtype=float), dtype=float)
+
+
 class StateVector(np.ndarray):
     """Coordinate representation"""
 
@@ -55,26 +65,12 @@ class StateVector(np.ndarray):
         object.__setattr__(self, "_data", obj._data.copy())
 
     def __reduce__(self):
-        """For pickling
-
-        see http://stackoverflow.com/questions/26598109
-        """
-        reconstruct, clsinfo, state = super().__reduce__()
-
-        new_state = {
-            "basestate": state,
-            "data": self._data,
-        }
-
-        return reconstruct, clsinfo, new_state
+        """For pickling"""
+        return _rebuild, (self.__class__, np.array(self)), self._data
 
     def __setstate__(self, state):
-        """For pickling
-
-        see http://stackoverflow.com/questions/26598109
-        """
-        super().__setstate__(state["basestate"])
-        object.__setattr__(self, "_data", state["data"])
+        """For pickling"""
+        object.__setattr__(self, "_data", state)
 
     def copy(self, *, frame=None, form=None, same=None):
         """Provide a new object of the same point in space-time. Optionally,
